@@ -296,6 +296,37 @@ def gen_index(rng, shape, sd, adv_mode=None, wild=True):
     return {"tuple": True, "items": items}
 
 
+def dedupe_adv(index, shape):
+    """make the integer advanced index of a write duplicate-free (modulo the dim size)"""
+    items = index["items"]
+    used = sum((len(it[1]) if it[0] == "mask" else 1) for it in items if it[0] not in ("none", "ell"))
+    d = 0
+    out = []
+    for it in items:
+        if it[0] == "ell":
+            d += max(0, len(shape) - used)
+            out.append(it)
+            continue
+        if it[0] == "none":
+            out.append(it)
+            continue
+        if it[0] in ("list", "ten") and d < len(shape) and shape[d] > 0:
+            s = shape[d]
+            vals = it[1] if it[0] == "list" else it[2]
+            seen, new = set(), []
+            for v in vals:
+                if v % s not in seen:
+                    seen.add(v % s)
+                    new.append(v)
+            if it[0] == "list":
+                it = ["list", new]
+            elif len(new) != len(vals):
+                it = ["ten", [len(new)], new] if len(it[1]) == 1 else ["ten", [len(new), 1], new]
+        out.append(it)
+        d += len(it[1]) if it[0] == "mask" else 1
+    return {"tuple": index["tuple"], "items": out}
+
+
 def expand_ellipsis_json(index, rank):
     items = index["items"]
     if not any(it[0] == "ell" for it in items):
@@ -364,9 +395,13 @@ def gen_op(rng, W_shape, sd, tree):
     adv = rng.choice([None, None, "before", "on", "on", "after", "any"])
     if k in ("getitem", "setitem", "set_at_", "update_at_"):
         idx = gen_index(rng, W_shape, sd, adv)
+        if k != "getitem":
+            idx = dedupe_adv(idx, W_shape)     # duplicate positions make torch's own write order-dependent
         if k == "setitem":
             return [k, idx, rng.choice(["td", "td", "td", "td", "scalar", "expand", "lazy"])]
-        if k == "set_at_":
+        if k in ("set_at_", "update_at_"):
+            # the dense twin applies the index to every LEAF (rank = batch rank + feature dims): an Ellipsis would mean
+            # something else there, which is the dense class's own business (C03), not the lazy stack's
             idx = expand_ellipsis_json(idx, len(W_shape))
         return [k, idx]
     if k == "setkey":
@@ -771,6 +806,14 @@ def layout_of(x):
     return ["other"]
 
 
+def batch_sizes_of(x):
+    if isinstance(x, (tuple, list)):
+        return ["seq"] + [batch_sizes_of(y) for y in x]
+    if hasattr(x, "batch_size"):
+        return list(x.batch_size)
+    return None
+
+
 def members_state(torch, W):
     return {j: canon(torch, o) for j, o in sorted(W.leaf_objs.items())}
 
@@ -830,16 +873,16 @@ def execute(case, torch=None, tensordict=None):
         return res
     if k in WRITE_OPS:
         # state after the write: the stack, and the members I hold
+        mem = members_state(torch, W)
+        res["members"] = mem
+        res["ids_changed"] = lazy_ids(W.lazy) != ids0
         cl = guarded(lambda: canon(torch, W.lazy))
         cd = canon(torch, W.dense)
         if cl[0] == "raise":
             res["verdict"] = "lazy-raise"
             res["lazy_raised"] = "materialise:" + cl[1]
             return res
-        mem = members_state(torch, W)
         exp = expected_members(torch, W, W.dense)
-        res["members"] = mem
-        res["ids_changed"] = lazy_ids(W.lazy) != ids0
         bad = None
         if cl[1] != cd:
             bad = {"what": "stack content after the write", "lazy": cl[1], "dense": cd}
@@ -853,12 +896,23 @@ def execute(case, torch=None, tensordict=None):
             res["verdict"] = "fail"
             res["detail"] = bad
         return res
+    cd = canon(torch, d[1])
+    # the batch size of what was returned is compared before anything is read from it
+    bl, bd = batch_sizes_of(l[1]), batch_sizes_of(d[1])
+    if bl != bd:
+        res["verdict"] = "fail"
+        res["detail"] = {"what": "batch size of the result", "lazy": bl, "dense": bd}
+        cl = guarded(lambda: canon(torch, l[1]))
+        if cl[0] == "ok":
+            res["value"] = cl[1]
+        else:
+            res["lazy_raised"] = "materialise:" + cl[1]
+        return res
     cl = guarded(lambda: canon(torch, l[1]))
     if cl[0] == "raise":
         res["verdict"] = "lazy-raise"
         res["lazy_raised"] = "materialise:" + cl[1]
         return res
-    cd = canon(torch, d[1])
     res["value"] = cl[1]
     if cl[1] != cd:
         res["verdict"] = "fail"
@@ -1126,7 +1180,7 @@ def model_lines(case):
         out.append(("read", sx([Sym("getitem"), t, index_sx(op[1])])))
     elif k == "setitem":
         out.append(("split", sx([Sym("split"), t, index_sx(op[1])])))
-        if op[2] != "scalar" and case.get("vshape") is not None:
+        if op[2] in ("td", "expand") and case.get("vshape") is not None:      # the model's value is a dense tensordict
             out.append(("write", sx([Sym("setitem"), t, index_sx(op[1]), list(case["vshape"])])))
     elif k in ("set_at_", "update_at_"):
         out.append(("split", sx([Sym("split"), t, index_sx(op[1])])))
@@ -1273,7 +1327,7 @@ def compare_case(R, case, res, mres):
             R.count("model:" + m)
         else:
             n += 1
-            raised = bool(res.get("lazy_raised"))
+            raised = bool(res.get("lazy_raised")) and not str(res.get("lazy_raised")).startswith("materialise:")
             if m == "coerce":
                 R.count("model:member-level-coercion-not-modelled")
             elif m in ("raised", "eval-fail"):
@@ -1301,6 +1355,95 @@ def strip1(sh):
     return [s for s in sh if s != 1]
 
 
+def reach(t, items):
+    """lazy nodes of the tree an index arrives at, with the index they receive (basic propagation of _split_index:
+    the item on the node's stack dim is consumed, the rest is handed to the members); stops at a mask covering the stack dim"""
+    if t[0] != "lazy":
+        return []
+    R = len(tree_shape(t))
+    items = expand_ellipsis_json({"tuple": True, "items": items}, R)["items"]
+    out = [(t, items)]
+    sd = t[1]
+    cursor = 0
+    sub = []
+    for it in items:
+        if it[0] == "none":
+            sub.append(it)
+            continue
+        if it[0] == "mask":
+            m = len(it[1])
+            if m >= 1 and cursor <= sd < cursor + m:
+                return out
+            sub.append(it)
+            cursor += m
+            continue
+        if cursor != sd:
+            sub.append(it)
+        cursor += 1
+    if sub:
+        for c in t[2]:
+            if c[0] == "lazy":
+                out.extend(reach(c, sub))
+                break           # members are alike: one representative is enough
+    return out
+
+
+def index_flags(tree, items):
+    """facts about how an index meets the stack dims of the (nested) lazy stack"""
+    f = {"int_tensor_alone_on_stack_dim_0": False, "int_tensor_rank_ge2_on_stack_dim": False,
+         "mask_covers_stack_dim": False, "none_before_nd_mask": False, "mask_rank0_members_with_other_items": False,
+         "mask_lazy_members": False, "mask_empty_selection": False,
+         "none_at_or_before_stack_dim": False, "adv_at_or_before_stack_dim": False}
+    for (t, its) in reach(tree, items):
+        sd = t[1]
+        R = len(tree_shape(t))
+        cursor = 0
+        seen_none = False
+        for pos, it in enumerate(its):
+            if it[0] == "none":
+                seen_none = True
+                if cursor <= sd:
+                    f["none_at_or_before_stack_dim"] = True
+                continue
+            m = len(it[1]) if it[0] == "mask" else 1
+            if it[0] in ADV and cursor <= sd:
+                f["adv_at_or_before_stack_dim"] = True
+            if it[0] == "mask" and m >= 1 and cursor <= sd < cursor + m:
+                f["mask_covers_stack_dim"] = True
+                if m >= 2 and seen_none:
+                    f["none_before_nd_mask"] = True
+                if R == m and len(its) > 1:
+                    f["mask_rank0_members_with_other_items"] = True
+                if t[2][0][0] == "lazy":
+                    f["mask_lazy_members"] = True
+                row = prod(it[1][1:])
+                bits = it[2]
+                if (m == 1 and not any(bits)) or (m >= 2 and any(not any(bits[r * row:(r + 1) * row]) for r in range(it[1][0]))):
+                    f["mask_empty_selection"] = True
+            if it[0] in ("list", "range", "ten") and cursor == sd:
+                rank = len(it[1]) if it[0] == "ten" else 1
+                if rank >= 2:
+                    f["int_tensor_rank_ge2_on_stack_dim"] = True
+                if len(its) == 1 and sd == 0:
+                    f["int_tensor_alone_on_stack_dim_0"] = True
+            cursor += m
+    return f
+
+
+def stack_dims_of(tree):
+    """dense dims that are the stack dim of some (nested) lazy level"""
+    out = set()
+
+    def rec(t, dims):
+        if t[0] != "lazy":
+            return
+        out.add(dims[t[1]])
+        rest = dims[:t[1]] + dims[t[1] + 1:]
+        rec(t[2][0], rest)
+    rec(tree, list(range(len(tree_shape(tree)))))
+    return out
+
+
 def signature(case, res):
     tree, op = case["tree"], case["op"]
     k = op[0]
@@ -1309,19 +1452,19 @@ def signature(case, res):
     sd = tree[1]
     sig = {"op": k, "pattern": "none"}
     if k in ("setitem", "set_at_", "update_at_", "getitem"):
-        items = case["op"][1]["items"]
-        advs = [it for it in items if it[0] in ADV]
-        if k == "setitem" and len(items) == 1 and items[0][0] in ("list", "range", "ten") and sd == 0 \
-                and op[2] != "scalar":
+        f = index_flags(tree, op[1]["items"])
+        if k in ("getitem", "setitem") and f["mask_covers_stack_dim"]:
+            sig["pattern"] = "bool-mask-covering-a-stack-dim"
+            for kk in ("none_before_nd_mask", "mask_rank0_members_with_other_items", "mask_lazy_members", "mask_empty_selection"):
+                sig[kk] = f[kk]
+        elif k in ("setitem", "set_at_") and f["int_tensor_rank_ge2_on_stack_dim"] and not (k == "setitem" and op[2] == "scalar"):
+            sig["pattern"] = "int-tensor-of-rank>=2-on-a-stack-dim"
+        elif k == "setitem" and f["int_tensor_alone_on_stack_dim_0"] and op[2] != "scalar":
             sig["pattern"] = "int-tensor-index-alone-on-stack-dim-0"
-        elif k == "getitem" and advs and advs[0][0] == "mask" and len(advs[0][1]) == 1 \
-                and all(len(l[2]) == 0 for l in tree_leaves(tree)) and tree[2][0][0] == "td" \
-                and [it[0] for it in items if it[0] not in ("mask",)] != [] \
-                and all(it[0] in ("none", "sl", "ell") for it in items if it[0] != "mask"):
-            sig["pattern"] = "1d-mask-on-stack-dim-of-rank0-members-with-other-items"
+        elif k == "update_at_" and (f["none_at_or_before_stack_dim"] or f["adv_at_or_before_stack_dim"]):
+            sig["pattern"] = "update_at_-with-None-or-advanced-index-at-or-before-a-stack-dim"
     elif k == "transpose":
         d0, d1 = sorted((norm_d(op[1], R), norm_d(op[2], R)))
-        pats = []
 
         def rec(t, d0, d1):
             # does the D26 arithmetic fire at this level or at a nested level the transpose is forwarded to?
@@ -1350,8 +1493,12 @@ def signature(case, res):
     elif k == "expand":
         tgt = op[1]
         off = len(tgt) - R
-        if off >= 0 and shape[sd] == 1 and tgt[off + sd] not in (1, -1):
+        if off >= 0 and any(shape[d] == 1 and tgt[off + d] not in (1, -1) for d in stack_dims_of(tree)):
             sig["pattern"] = "stack-dim-of-size-1-expanded"
+    elif k == "split":
+        d = norm_d(op[2], R)
+        if isinstance(op[1], list) and 0 in op[1] and d in stack_dims_of(tree):
+            sig["pattern"] = "zero-size-in-split-list-on-a-stack-dim"
     elif k in ("view", "flatten", "unflatten"):
         if k == "view":
             tgt = list(op[1])
